@@ -27,6 +27,9 @@ Expected(r) ==
     [] r.op = "size" -> BF!Size(r.a)
     [] r.op = "has" -> HasOp(r.a, r.b.cp)
     [] r.op = "sel" -> SelectOp(r.a, r.b.cp, FALSE)
+    [] r.op = "sizeadd" ->       \* size is additive over + (strings: pinned for ASCII text)
+         LET sa == BF!Size(r.a) sb == BF!Size(r.b) IN
+         IF sa.dev \/ sb.dev THEN D(R(VBool(TRUE))) ELSE R(VBool(TRUE))
 
 \* host-side partial_cmp: Some(Less|Equal|Greater) or None
 CmpMatches(r) ==
